@@ -362,6 +362,8 @@ def oracle_guard(ctx, confirmed, confirm_obs):
 
 
 def run(ctx, replay_case=None):
+    if not (rig.REPO / HOOK).exists():
+        raise Infra(f"hook file missing: {rig.REPO / HOOK} (staged copy: {rig.ROOT / 'hooks-staging' / HOOK})")
     check_kinds_module()
     K = consts(ctx)
     obs = ctx.work / "obs.ndjson"
